@@ -76,6 +76,8 @@ func (o c13Op) req() string {
 		return fmt.Sprintf("ant %s %s", c13Path(o.Path), encTree(o.Tree))
 	case "dat":
 		return "dat " + encTree(o.Tree)
+	case "dac":
+		return "dac " + encTree(o.Tree)
 	case "aic":
 		return fmt.Sprintf("aic %s %s", hexs(o.Ptr), encForest(o.Tree.Kids))
 	case "nms", "aev":
@@ -136,6 +138,8 @@ func (o c13Op) String() string {
 		return fmt.Sprintf("node%v.AddNode(NewNode(subtree %s))", o.Path, dumpT(o.Tree))
 	case "dat":
 		return fmt.Sprintf("doc.AddNode(NewNode(subtree %s))", dumpT(o.Tree))
+	case "dac":
+		return fmt.Sprintf("doc.AddNode(gedcom.DeepCopy(record %s @%s@ of another document, doc))", dumpT(o.Tree), o.Tree.Ptr)
 	case "aic":
 		return fmt.Sprintf("doc.AddIndividual(%q, children %s)", o.Ptr, dumpT(o.Tree))
 	case "nms":
@@ -203,6 +207,8 @@ func (o c13Op) apiName() string {
 		return "Node.AddNode(subtree)"
 	case "dat":
 		return "Document.AddNode(subtree)"
+	case "dac":
+		return "Document.AddNode(DeepCopy " + o.Tree.Tag + ")"
 	case "aic":
 		return "Document.AddIndividual(children)"
 	case "nms":
@@ -299,6 +305,37 @@ func c13Build(t *TNode) (n gedcom.Node, ok bool) {
 		return nil, false
 	}
 	return gedcom.NewNode(gedcom.TagFromString(t.Tag), t.Value, t.Ptr, kids...), true
+}
+
+// c13NoRoles: no HUSB/WIFE/CHIL line anywhere, and INDI/FAM only at the root.
+func c13NoRoles(t *TNode) bool {
+	switch t.Tag {
+	case "HUSB", "WIFE", "CHIL":
+		return false
+	}
+	for _, k := range t.Kids {
+		if k.Tag == "INDI" || k.Tag == "FAM" || !c13NoRoles(k) {
+			return false
+		}
+	}
+	return true
+}
+
+// c13Text writes a subtree as GEDCOM lines.
+func c13Text(t *TNode, level int) string {
+	s := strconv.Itoa(level)
+	if t.Ptr != "" {
+		s += " @" + t.Ptr + "@"
+	}
+	s += " " + t.Tag
+	if t.Value != "" {
+		s += " " + t.Value
+	}
+	s += "\n"
+	for _, k := range t.Kids {
+		s += c13Text(k, level+1)
+	}
+	return s
 }
 
 var c13DateAPI = map[string]string{"BIRT": "AddBirthDate", "BAPM": "AddBaptismDate", "DEAT": "AddDeathDate", "BURI": "AddBurialDate"}
@@ -975,14 +1012,24 @@ func (d *c13Doc) apply(o c13Op) (obs string) {
 		}
 		n.AddNode(t)
 	case "dat":
-		if !d.ptrFreeOfIndi(o.Tree.Ptr) {
-			return "bad"
-		}
 		t, ok := c13Build(o.Tree)
 		if !ok {
 			return "bad"
 		}
 		doc.AddNode(t)
+	case "dac":
+		// a record of ANOTHER document (decoded from text), copied for this document with DeepCopy and
+		// added with the generic Document.AddNode: the way an INDI / FAM record gets into a document
+		// without AddIndividual / AddFamily.  Role lines (HUSB/WIFE/CHIL) anywhere below make DeepCopy
+		// add a family to the target as a side effect: outside the model, rejected on both sides.
+		if !c13NoRoles(o.Tree) {
+			return "bad"
+		}
+		src, err := gedcom.NewDocumentFromString(c13Text(o.Tree, 0))
+		if err != nil || len(src.Nodes()) != 1 {
+			return "bad"
+		}
+		doc.AddNode(gedcom.DeepCopy(src.Nodes()[0], doc))
 	case "aic":
 		var kids []gedcom.Node
 		for _, k := range o.Tree.Kids {
@@ -1054,7 +1101,7 @@ func (d *c13Doc) apply(o c13Op) (obs string) {
 		}
 		n.SetNodes(nk)
 	case "da":
-		if !c13Plain(o.Tag) || !d.ptrFreeOfIndi(o.Ptr) {
+		if !c13Plain(o.Tag) { // NewNode panics for these; INDI / FAM records come in through "dac"
 			return "bad"
 		}
 		doc.AddNode(gedcom.NewNode(gedcom.TagFromString(o.Tag), o.Val, o.Ptr))
@@ -1604,7 +1651,7 @@ func (d *c13Doc) randomOp(r *Rand, fresh *int) c13Op {
 		return fmt.Sprintf("%s%d", prefix, 100+*fresh)
 	}
 	for {
-		switch r.Intn(34) {
+		switch r.Intn(36) {
 		case 28, 29: // DeleteNodesWithTag on a record or a node below one
 			p := randPath()
 			if r.Chance(2, 3) && len(inds)+len(fams) > 0 {
@@ -1621,6 +1668,25 @@ func (d *c13Doc) randomOp(r *Rand, fresh *int) c13Op {
 				p = []int{pick(append(append([]int{}, inds...), fams...))}
 			}
 			return c13Op{Kind: "ant", Path: p, Tree: c13RandTree(r, 0)}
+		case 34, 35: // a record of another document, copied and added with the generic Document.AddNode
+			kids := []*TNode{}
+			for i := r.Intn(3); i > 0; i-- {
+				kids = append(kids, c13RandPlainTree(r))
+			}
+			switch r.Intn(4) {
+			case 0, 1:
+				ptr := newPtr("I")
+				if r.Chance(1, 3) {
+					ptr = "I99" // the pointer the dangling references use
+				}
+				if len(fams) > 0 && r.Chance(1, 2) {
+					kids = append(kids, T(r.Pick([]string{"FAMS", "FAMC"}), "@"+roots[pick(fams)].Pointer()+"@", ""))
+				}
+				return c13Op{Kind: "dac", Tree: T("INDI", "", ptr, kids...)}
+			case 2:
+				return c13Op{Kind: "dac", Tree: T("FAM", "", newPtr("F"), kids...)}
+			}
+			return c13Op{Kind: "dac", Tree: T(r.Pick([]string{"NOTE", "SOUR", "SUBM"}), "", newPtr("N"), kids...)}
 		case 31:
 			if r.Bool() {
 				t := c13RandTree(r, 0)
@@ -1839,6 +1905,18 @@ func c13RandTree(r *Rand, depth int) *TNode {
 	return T(r.Pick([]string{"NAME", "NOTE", "_UID", "FAMS"}), r.Pick([]string{"A /B/", "n", "@F1@"}), "")
 }
 
+// c13RandPlainTree: a subtree that survives a decode unchanged (no role lines, no empty-valued
+// oddities): an event with a date, a name, a note.
+func c13RandPlainTree(r *Rand) *TNode {
+	switch r.Intn(3) {
+	case 0:
+		return T(r.Pick([]string{"BIRT", "DEAT", "RESI", "MARR"}), "", "", T("DATE", r.Pick(c13Years), ""))
+	case 1:
+		return T("NAME", r.Pick(c13Names), "")
+	}
+	return T("NOTE", "n", "")
+}
+
 func (d *c13Doc) randomRead(r *Rand) c13Op {
 	switch r.Intn(6) {
 	case 4:
@@ -1878,6 +1956,7 @@ var c13Alphabet = []c13Op{
 }
 
 var c13ThoroughExtra = []c13Op{
+	{Kind: "dac", Tree: T("INDI", "", "I4", T("NAME", "C /D/", ""))}, // doc.AddNode(DeepCopy(INDI record of another document))
 	{Kind: "dnt", Path: []int{3}, Tag: "HUSB"}, // DeleteNodesWithTag(F1, HUSB)
 	{Kind: "aic", Ptr: "I3", Tree: T("INDI", "", "I3", T("NAME", "K /S/", ""), T("FAMC", "@F1@", ""))},
 	{Kind: "ds", Idx: []int{0, 2, 3}},  // doc.SetNodes(all but I1)
@@ -2033,6 +2112,22 @@ var c13DirectedDangling = [][]c13Op{
 	// the same through AddIndividual with children
 	{{Kind: "aic", Ptr: "I9", Tree: T("INDI", "", "I9", T("NAME", "W /X/", ""), T("FAMS", "@F1@", ""))}, {Kind: "dnt", Path: []int{1}, Tag: "WIFE"}},
 	{{Kind: "aic", Ptr: "I8", Tree: T("INDI", "", "I8", T("BIRT", "", "", T("DATE", "1900", "")), T("FAMC", "@F1@", ""))}, {Kind: "dnt", Path: []int{1}, Tag: "CHIL"}},
+}
+
+// generic Document.AddNode of a record copied from another document, every view warm (each step of a
+// history is preceded by dumps of all views): an INDI record, a FAM record, a non-record node
+var c13DirectedAddRecord = [][]c13Op{
+	{{Kind: "dac", Tree: T("INDI", "", "I3", T("NAME", "New /Person/", ""), T("BIRT", "", "", T("DATE", "1900", "")))}, {Kind: "inds"}, {Kind: "bp", Ptr: "I3"}},
+	{{Kind: "dac", Tree: T("FAM", "", "F2", T("MARR", "", "", T("DATE", "1870", "")))}, {Kind: "fams"}, {Kind: "shp", A: 4, Ptr: "I2"}},
+	{{Kind: "dac", Tree: T("NOTE", "", "N1", T("CONT", "x", ""))}, {Kind: "dac", Tree: T("SUBM", "", "U1")}},
+	{{Kind: "dac", Tree: T("INDI", "", "I1", T("NAME", "Same /Pointer/", ""))}, {Kind: "sp", A: 2}, {Kind: "dd", A: 4}},
+	{{Kind: "dac", Tree: T("FAM", "", "F1", T("CHIL", "@I1@", ""))}, {Kind: "dac", Tree: T("INDI", "", "I5", T("NOTE", "n", "", T("HUSB", "@I1@", "")))}},
+}
+
+// on c13DanglingDoc (roots: 0 I1, 1 F1 with WIFE @I9@ and CHIL @I8@): the record makes a reference resolve
+var c13DirectedAddRecordDangling = [][]c13Op{
+	{{Kind: "dac", Tree: T("INDI", "", "I9", T("NAME", "Jane /Doe/", ""), T("BIRT", "", "", T("DATE", "1900", "")))}},
+	{{Kind: "dac", Tree: T("INDI", "", "I8", T("NAME", "Kid /Smith/", ""), T("FAMC", "@F1@", ""))}, {Kind: "dac", Tree: T("INDI", "", "I9", T("FAMS", "@F1@", ""))}},
 }
 
 // on c13RepeatedNamesDoc (roots: 0 I1, 1 F1): matching children interleaved with others
@@ -2448,7 +2543,7 @@ func c13Publish(c *Ctx, text string, history []c13Step) {
 
 func init() {
 	runners["C13"] = func(c *Ctx) {
-		c.Rule = "histories of public-API edits and reads on one document; after every op every view named in the property is dumped (twice more after the global node cache was reset by the oracle's re-decode, so caches are warm at the next edit). Streams: exhaustive sequences over a 9-op alphabet on a 2-person/1-family document (quick: all sequences of <= 4 ops; thorough: <= 5 ops, plus <= 3 ops over a 15-op alphabet incl. DeleteNodesWithTag and AddIndividual with children), random histories of 10-200 ops on random family graphs, every read-only operation inserted at every position of base histories; read-only operations (in-process ones, and publish x 3 living modes + diff page rendering in a child process) on marriage graphs where people have 2-3 spouses in every living/deceased order, comparing every view of every record before/after and with a fresh decode; distinct = (op kind, did a view change, rejected?)"
+		c.Rule = "histories of public-API edits and reads on one document; after every op every view named in the property is dumped (twice more after the global node cache was reset by the oracle's re-decode, so caches are warm at the next edit). Streams: exhaustive sequences over a 9-op alphabet on a 2-person/1-family document (quick: all sequences of <= 4 ops; thorough: <= 5 ops, plus <= 3 ops over a 16-op alphabet incl. DeleteNodesWithTag and AddIndividual with children), random histories of 10-200 ops on random family graphs, every read-only operation inserted at every position of base histories; read-only operations (in-process ones, and publish x 3 living modes + diff page rendering in a child process) on marriage graphs where people have 2-3 spouses in every living/deceased order, comparing every view of every record before/after and with a fresh decode; distinct = (op kind, did a view change, rejected?)"
 		// facts that could not be located are tied by correspondence only
 		if _, facts, err := c13Facts(); err == nil {
 			var un []string
@@ -2539,6 +2634,26 @@ func init() {
 			}
 			r.finish()
 		}
+		for _, hist := range c13DirectedAddRecord {
+			r, err := c13NewRunner(c, c13SmallDoc)
+			if err != nil {
+				panic(err)
+			}
+			for _, o := range hist {
+				r.do(o)
+			}
+			r.finish()
+		}
+		for _, hist := range c13DirectedAddRecordDangling {
+			r, err := c13NewRunner(c, c13DanglingDoc)
+			if err != nil {
+				panic(err)
+			}
+			for _, o := range hist {
+				r.do(o)
+			}
+			r.finish()
+		}
 		for _, hist := range c13DirectedRepeated {
 			r, err := c13NewRunner(c, c13RepeatedNamesDoc)
 			if err != nil {
@@ -2590,7 +2705,7 @@ func init() {
 		}
 		rec(nil)
 		c.Count(fmt.Sprintf("stream=exhaustive<=%d", maxLen))
-		if !c.Quick() { // the six extra ops, up to length 3 over the 15-op alphabet
+		if !c.Quick() { // the seven extra ops, up to length 3 over the 16-op alphabet
 			alphabet = append(append([]c13Op{}, c13Alphabet...), c13ThoroughExtra...)
 			maxLen = 3
 			rec(nil)
